@@ -493,6 +493,17 @@ class Fuzz:
                 spec += f',{code}%3D{others[0]}'
                 rp['c']['two_positions'] = True
             fq = '' if failures is None else f'&failures={failures}'
+            if failures and rng.random() < 0.5:
+                # prelude in the same client session: the same fault requested WITHOUT failures= fires every
+                # time, and must not use up the count of the later requests that carry failures=N
+                rp['c']['prelude'] = k_pre = rng.randrange(1, 5)
+                for _ in range(k_pre):
+                    url = f'/dash/live/bbb/{rep}/{target}.{ext}?start={START}&{spec}'
+                    r = self._raw(client, url)
+                    res.count('c.prelude_requests')
+                    if r.status_code != code:
+                        res.violation('injected-media-error-without-failure-count-not-fired',
+                                      f'{url} -> {r.status_code}, expected {code} on every request', rp)
             seq = []
             for step in range(9):
                 nn = rng.choice([target, target, target, others[1]] + ([others[0]] if rp['c'].get('two_positions') else []))
